@@ -4,7 +4,7 @@ tier=$1; shift
 export VERIF_REPO=${VP_RUN_REPO:-${VERIF_REPO:-/repo}}
 ./check --setup >/dev/null 2>&1
 for s in "$@"; do
-  for p in C01 C02 C03 C04 C05 C06 C07 C08 C09 C10 C11 C12 C13 C14 C15 C16 C17 C19 C20; do
+  for p in ${SWEEP_PROPS:-C01 C02 C03 C04 C05 C06 C07 C08 C09 C10 C11 C12 C13 C14 C15 C16 C17 C19 C20}; do
     out=$(VERIF_SEED=$s ./check $p --tier $tier 2>&1); rc=$?
     echo "seed=$s $p rc=$rc $(echo "$out" | grep -E '^C[0-9]+ tier' | head -1)"
     if [ $rc -ne 0 ]; then echo "$out" | tail -15; for f in $(echo "$out" | grep -o 'replay=[^ ]*' | cut -d= -f2); do head -c 3000 $f; done; fi
